@@ -1,1 +1,5 @@
 import Ypv.Props.C09
+#print axioms Ypv.C09.create_exact_partial_seq
+#print axioms Ypv.C09.create_exact_partial_map
+#print axioms Ypv.C09.fill_resolves
+#print axioms Ypv.C09.create_nothing_when_present
